@@ -198,6 +198,7 @@ func (v vec) clone(n int) vec {
 }
 
 type space struct {
+	zt   map[int]bool // variables holding (or derived from) an unknown that was given the benefit of the doubt
 	bot  bool
 	n    int // number of variables in use (vectors are padded on demand)
 	p    vec
@@ -216,6 +217,12 @@ func (s *space) clone() *space {
 		return &space{bot: true, n: s.n}
 	}
 	r := &space{n: s.n, p: s.p.clone(s.n), piv: append([]int(nil), s.piv...)}
+	if len(s.zt) > 0 {
+		r.zt = make(map[int]bool, len(s.zt))
+		for k := range s.zt {
+			r.zt[k] = true
+		}
+	}
 	for _, row := range s.rows {
 		r.rows = append(r.rows, row.clone(s.n))
 	}
@@ -318,6 +325,15 @@ func (s *space) join(o *space) bool {
 		s.grow(o.n)
 	}
 	ch := false
+	for k := range o.zt {
+		if !s.zt[k] {
+			if s.zt == nil {
+				s.zt = map[int]bool{}
+			}
+			s.zt[k] = true
+			ch = true
+		}
+	}
 	d := make(vec, s.n)
 	for j := range d {
 		d[j] = o.p.at(j).sub(s.p.at(j))
@@ -361,6 +377,20 @@ func (s *space) assignMany(xs []int, es []lin) {
 		}
 	}
 	s.grow(mx)
+	nt := make([]bool, len(xs))
+	for i, e := range es {
+		nt[i] = s.tainted(e)
+	}
+	for i, x := range xs {
+		if nt[i] {
+			if s.zt == nil {
+				s.zt = map[int]bool{}
+			}
+			s.zt[x] = true
+		} else if s.zt != nil {
+			delete(s.zt, x)
+		}
+	}
 	np := make([]q, len(xs))
 	nr := make([][]q, len(xs))
 	for i, e := range es {
@@ -385,6 +415,22 @@ func (s *space) assignMany(xs []int, es []lin) {
 	} else {
 		// rows stay independent and reduced w.r.t. pivots; drop nothing
 	}
+}
+
+func (s *space) tainted(e lin) bool {
+	for v := range e.co {
+		if s.zt[v] {
+			return true
+		}
+	}
+	return false
+}
+
+func (s *space) markTaint(x int) {
+	if s.zt == nil {
+		s.zt = map[int]bool{}
+	}
+	s.zt[x] = true
 }
 
 func (s *space) assign(x int, e lin) { s.assignMany([]int{x}, []lin{e}) }
